@@ -149,6 +149,12 @@ PROPS["C08"] = dict(
 verus_unit("polyv", "poly", ["C20"], ["polynom::add", "polynom::sub", "polynom::mul", "polynom::mul_by_scalar", "polynom::degree_of", "polynom::remove_leading_zeros", "utils::fill_power_series",
            "polynom::div (quotient * divisor + remainder == dividend coefficient by coefficient, remainder below the divisor degree; assumes five field laws)"])
 
+native_unit("field_native", "winter-math", "math", "native/field_bounded.rs", ["C07", "C08"],
+            ["f128 / f64 / f62 BaseElement: new, + - * / (and the assigning forms), neg, double, square, cube, inv, exp, ==, as_int, to_bytes / read_from, get_root_of_unity", "QuadExtension / CubeExtension over the three base fields: * (and *=), square, + - neg, double, mul_base, inv, /, conjugate, exp, to_bytes / read_from, slice_as_base_elements / slice_from_base_elements"],
+            "every operation agrees with integer arithmetic modulo the prime computed by an independent add-and-double reference (extension products: schoolbook rule reduced by the documented irreducible polynomial); results compare equal to the canonical element of their residue, also when an operand is a non-canonical internal representative (x + (-x), y - y); x * inv(x) == 1, inv(0) == 0; conjugation is a ring automorphism of order n fixing the base field; encodings are canonical and decode back; roots of unity have order exactly 2^k",
+            "NATIVE EXECUTION, not a proof (safety net for the case that a statement-anchored Verus proof of a bit-level function becomes undecided after an edit): ~60 boundary values per base field in all pairs + 400 seeded pairs, 13 exponents per value, 1500 operand pairs per extension field (64 corner combinations + seeded)",
+            timeout=900)
+
 native_unit("poly_native", "winter-math", "math", "native/poly_bounded.rs", ["C20"],
             ["polynom::{eval, eval_many, add, sub, mul, mul_by_scalar, div, syn_div, syn_div_in_place, syn_div_roots_in_place, interpolate, interpolate_batch, poly_from_roots, degree_of, remove_leading_zeros}", "utils::{get_power_series, get_power_series_with_offset, add_in_place, mul_acc, batch_inversion}"],
             "every function agrees with its defining identity, checked against a naive reference written in the stand-in (schoolbook product, evaluation by explicit powers): sums / differences / products / scalar multiples, quotient * divisor + remainder = dividend with deg remainder < deg divisor (long, synthetic by x^a - b, by roots), interpolation passes through the points with degree < n, expansion from roots is the monic product, degrees, power series, in-place accumulation, batch inversion with zeros preserved; nothing panics inside the documented domains",
